@@ -24,6 +24,8 @@ pub struct RefState {
     pub block_txs: BTreeMap<TxHash, Transaction>,
     /// every pool key any transaction of the history has named (so that the real pool tree can be fully accounted for)
     pub seen_pool_keys: BTreeSet<PoolKey>,
+    /// hashes of every accepted transaction of kind Stake in this history (bookkeeping for alphabets only)
+    pub stake_txs_seen: BTreeSet<TxHash>,
 }
 
 #[derive(Clone, Debug, PartialEq, Eq)]
@@ -259,7 +261,9 @@ impl RefState {
             // unlocked
             if rules.stake_lock {
                 for i in &tx.inputs {
-                    if self.stakes.contains_key(&i.txhash) || new_stakes.contains_key(&i.txhash) {
+                    // the staked coin is the first output of the stake transaction (the statement speaks of that coin only;
+                    // an implementation that also locks the other outputs is stricter, which the necessity direction allows)
+                    if i.index == 0 && (self.stakes.contains_key(&i.txhash) || new_stakes.contains_key(&i.txhash)) {
                         return rej("coin-locked", format!("{}", i));
                     }
                 }
@@ -329,8 +333,11 @@ impl RefState {
                 if next.coins.contains_key(&m) {
                     return rej("faucet-duplicate", "");
                 }
-                // every accepted faucet is remembered (the statement: at most once anywhere)
-                next.coins.insert(m, marker_coin());
+                // every accepted faucet is remembered (the statement: at most once on any network other than mainnet);
+                // the one grandfathered transaction on mainnet is the exception the statement itself makes
+                if !(self.network == NetID::Mainnet && is_grandfathered(tx)) {
+                    next.coins.insert(m, marker_coin());
+                }
             }
             let min = ref_min_fee(tx, self.fee_multiplier);
             next.fee_pool = next.fee_pool.saturating_add(min);
@@ -338,6 +345,9 @@ impl RefState {
             next.block_txs.insert(tx.hash_nosigs(), tx.clone());
             if let Some(k) = PoolKey::from_bytes(&tx.data) {
                 next.seen_pool_keys.insert(k);
+            }
+            if tx.kind == TxKind::Stake {
+                next.stake_txs_seen.insert(tx.hash_nosigs());
             }
         }
         for (id, c) in created {
